@@ -122,12 +122,15 @@ class CaptureMachine(ms.LoggedMachine):
         super().run_multiscale(cfg, input_step)
 
 
-def run_multiscale_case(left, right, pipe):
+def run_multiscale_case(left, right, pipe, machine=None):
     import pandora
     from pandora.check_configuration import update_conf
 
     cfg = update_conf({"pipeline": {}}, {"pipeline": copy.deepcopy(pipe)})
-    m = CaptureMachine()
+    m = machine if machine is not None else CaptureMachine()
+    # a machine that already ran another pipeline (history cases): only this run is observed
+    m.levels, m.ms_inputs, m.cb_log = [], [], []
+    m.orig_left = None
     meta = lambda ds: ds if "band_im" in ds.coords else ds.assign_coords(band_im=[None])
     m.check_conf(copy.deepcopy(cfg), meta(left), meta(right))
     cfg["pipeline"] = copy.deepcopy(m.pipeline_cfg["pipeline"])
@@ -205,7 +208,7 @@ def same_grid(impl, model_json):
     return True, None
 
 
-def check_case(ctx, report, left, right, pipe, lo, hi, label):
+def check_case(ctx, report, left, right, pipe, lo, hi, label, machine=None):
     ns = pipe["multiscale"]["num_scales"]
     f = pipe["multiscale"]["scale_factor"]
     marge = pipe["multiscale"]["marge"]
@@ -214,7 +217,7 @@ def check_case(ctx, report, left, right, pipe, lo, hi, label):
             "bands": "band_im" in left.coords, "mask": "msk" in left}
     fp = (ds_fingerprint(left), ds_fingerprint(right))
     try:
-        out_l, out_r, m = run_multiscale_case(left, right, pipe)
+        out_l, out_r, m = run_multiscale_case(left, right, pipe, machine)
     except Exception as exc:  # pylint: disable=broad-except
         # a legal multiscale pipeline on a well-formed pair: the run must complete, whatever it computes
         report.case(key=json.dumps([label, pipe, rows, cols, lo, hi], sort_keys=True), nontrivial=True, sample={"pipeline": pipe})
@@ -418,6 +421,26 @@ def run_direct(ctx, report, seed, shape, label=None):
     check_direct(ctx, report, d, label or f"direct_seed={seed},shape={d['shape'][0]}x{d['shape'][1]},given={bool(shape)}")
 
 
+def check_history(ctx, report, gs_a, gs_b):
+    """Two multiscale pipelines with different parameters run one after the other on ONE machine object (seed C15-4:
+    a multiscale object kept from the previous run): the second run is judged exactly like a run on a fresh machine."""
+    import random
+
+    la, ra, pa, loa, hia = gen_case(random.Random(gs_a))
+    lb, rb, pb, lob, hib = gen_case(random.Random(gs_b))
+    if pa["multiscale"] == pb["multiscale"]:  # make the two multiscale steps differ
+        pb["multiscale"] = dict(pb["multiscale"], marge=(pb["multiscale"]["marge"] + 2) % 4)
+    machine = CaptureMachine()
+    n0 = len(report.failures)
+    check_case(ctx, report, la, ra, pa, loa, hia, f"history={gs_a},{gs_b}:first", machine=machine)
+    if len(report.failures) > n0:
+        return
+    check_case(ctx, report, lb, rb, pb, lob, hib, f"history={gs_a},{gs_b}:second", machine=machine)
+    for fl in report.failures[n0:]:
+        fl["trigger"] = fl["trigger"] + "/second_run_on_a_used_machine"
+    report.count("history_second_run")
+
+
 def run(ctx, report, status):
     translator_cross_check(report, status)
     report.rule = (
@@ -425,7 +448,7 @@ def run(ctx, report, status):
         "with/without masks, optional steps around it) on a machine whose callbacks record image sizes, interval grids and the "
         "coarse disparity handed to run_multiscale; sizes, interval arithmetic and the per-pixel interval of every finer level are "
         "compared exactly with the Lean model and with the specification; non-trivial = every case (>= 2 scales); distinct by "
-        "(pipeline, shape, interval). Direct: the real disparity_range on synthetic coarse levels (integer/quarter disparities, "
+        "(pipeline, shape, interval). History: two different multiscale pipelines run one after the other on one machine object, the second judged like a fresh run. Direct: the real disparity_range on synthetic coarse levels (integer/quarter disparities, "
         "invalid blobs on borders and chunk boundaries with NaN/sentinel disparities, information bits, windows 1/3/5, shapes "
         "straddling the chunk size 100: 102x3, 103x7, 5x205, 101x104...) against the model, the model through the chunk loop of "
         "the source and the specification; non-trivial = a valid interior pixel"
@@ -445,6 +468,8 @@ def run(ctx, report, status):
         big = (i == 3) or (ctx.thorough and i % 10 == 3)
         left, right, pipe, lo, hi = gen_case(r2, big=big)
         check_case(ctx, report, left, right, pipe, lo, hi, f"gen_seed={gs},big={big}")
+    for _ in range(ctx.n(3, 30)):
+        check_history(ctx, report, rng.randrange(1 << 30), rng.randrange(1 << 30))
     for shape in DIRECT_SHAPES_QUICK + (DIRECT_SHAPES_THOROUGH if ctx.thorough else []):
         run_direct(ctx, report, rng.randrange(1 << 30), shape)
     for _ in range(ctx.n(30, 600)):
@@ -455,6 +480,10 @@ def search(ctx, report, status):
     import random
 
     sub = core.Report(PROP, ctx.tier, ctx.seed)
+    for i in range(4):
+        check_history(ctx, sub, ctx.rng.randrange(1 << 30), ctx.rng.randrange(1 << 30))
+        if sub.failures:
+            return sub.failures[0]
     for i in range(30):
         gs = ctx.rng.randrange(1 << 30)
         left, right, pipe, lo, hi = gen_case(random.Random(gs))
@@ -476,7 +505,10 @@ def replay(ctx, report, path):
         data = json.load(f)
     case = data.get("input", data)
     md_ = re.search(r"direct_seed=(\d+),shape=(\d+)x(\d+),given=(\w+)", case["label"])
-    if md_:
+    mh = re.search(r"history=(\d+),(\d+)", case["label"])
+    if mh:
+        check_history(ctx, report, int(mh.group(1)), int(mh.group(2)))
+    elif md_:
         run_direct(ctx, report, int(md_.group(1)), (int(md_.group(2)), int(md_.group(3))) if md_.group(4) == "True" else None,
                    label=case["label"])
     else:
